@@ -75,3 +75,18 @@ Definition fps (s : sps) : option (N * N) :=
               end
   | None => None
   end.
+
+(* AspectRatioInfo::get: sample aspect ratio of Table E-1; None for unspecified / reserved / a zero extended term *)
+Definition aspect_get (a : aspect_ratio_info) : option (N * N) :=
+  match a with
+  | ArUnspecified => None
+  | ArRatio idc =>
+      match idc with
+      | 1 => Some (1, 1) | 2 => Some (12, 11) | 3 => Some (10, 11) | 4 => Some (16, 11) | 5 => Some (40, 33)
+      | 6 => Some (24, 11) | 7 => Some (20, 11) | 8 => Some (32, 11) | 9 => Some (80, 33) | 10 => Some (18, 11)
+      | 11 => Some (15, 11) | 12 => Some (64, 33) | 13 => Some (160, 99) | 14 => Some (4, 3) | 15 => Some (3, 2)
+      | 16 => Some (2, 1) | _ => None
+      end
+  | ArReserved _ => None
+  | ArExtended w h => if (w =? 0) || (h =? 0) then None else Some (w, h)
+  end.
